@@ -12,6 +12,9 @@ refuted with overwhelming probability).
 Positions / orientations: every link, including 2- and 3-joint stacks with non-orthogonal axes and
 anchors away from the origin.  Velocities: links attached (with all ancestors) by a free joint or a
 single hinge / slide anchored at the link origin -- the claim's domain.
+R1.2 [spec] scan.py's regrouping primitives meet their gather / scatter specification for every forest of the bounded universe.
+R1.3 [abstract execution] the kinematic description forward() reads (link frames, joint anchors, dof axes, tree) is the
+     reference built from the mjModel -- load_model executed on mock models (shared with C14 R14.4).
 """
 import os
 
@@ -90,6 +93,11 @@ def one(U, name, links, vel_claim, seed):
 
 
 def run(U, rep, tier):
+  # R1.3: the kinematic description forward() reads -- link frames, joint anchors, dof axes, tree -- is the reference
+  # built from the mjModel (load_model abstractly executed on mock models; shared with C14 R14.4)
+  from braxlint.props import c14
+  c14.loader_fields(U, rep, rule='R1.3', prefix=('link.transform', 'link.joint', 'dof.motion', 'link_parents', 'link_types'),
+                    label='loader:')
   f = U.func('brax.kinematics.forward')
   s0 = int(os.environ.get('VERIF_SEED', '0') or 0)
   seeds = [s0 * 1000 + t for t in range(2 if tier == 'quick' else 6)]
